@@ -35,7 +35,7 @@ func (c12) Describe() CheckInfo {
 		},
 		RealCode:       []string{"gopatch main()/mainCmd.Run, preview/printComments, patch.Parse/File.Apply, pkg/diff, x/tools/imports, internal/*"},
 		Stubs:          []string{"package os (simulated filesystem, streams, exit)", "path/filepath walk", "io/ioutil"},
-		RequiredProbes: []string{"agree-inplace-vs-print", "agree-diff-applied", "agree-api", "agree-verbose", "agree-refused-file", "description-on-stderr", "multi-file-print", "dry-fault-fired", "dry-kill", "dry-stdout-fail", "noncanonical-matched-file"},
+		RequiredProbes: []string{"agree-inplace-vs-print", "agree-diff-applied", "agree-api", "agree-verbose", "agree-refused-file", "description-on-stderr", "multi-file-print", "dry-fault-fired", "dry-kill", "dry-stdout-fail", "noncanonical-matched-file", "large-file"},
 	}
 }
 
@@ -75,7 +75,17 @@ func (c12) Gen(env *Env, seed uint64, tier string, i int) *Case {
 			if r.Chance(1, 3) {
 				style = r.Pick(Styles)
 			}
-			c.AddFile(fmt.Sprintf("%smt%d.go", dir, j), MatchingFile(r, cs, style, r.Pick(plainHeaders)), "match", ms, style)
+			data := MatchingFile(r, cs, style, r.Pick(plainHeaders))
+			if r.Chance(1, 8) && style == "canonical" {
+				// a large file: output well beyond any I/O buffer size
+				var filler strings.Builder
+				for k := 0; k < 40+r.Intn(60); k++ {
+					fmt.Fprintf(&filler, "\nfunc filler%d(a, b int) int {\n\tif a > b {\n\t\treturn a - b // %d\n\t}\n\treturn b - a\n}\n", k, k)
+				}
+				data = append(data, []byte(filler.String())...)
+				env.Probe("large-file")
+			}
+			c.AddFile(fmt.Sprintf("%smt%d.go", dir, j), data, "match", ms, style)
 		} else {
 			style := r.Pick(Styles)
 			c.AddFile(fmt.Sprintf("%snm%d.go", dir, j), NonMatchingFile(r, style, ""), "nomatch", nil, style)
@@ -235,8 +245,8 @@ func c12Agree(env *Env, c *Case) []Violation {
 				}
 				continue
 			}
-			if strings.Contains(o, "\r") || !strings.HasSuffix(o, "\n") {
-				continue // not representable by pkg/diff
+			if strings.Contains(o, "\r") {
+				continue // carriage returns are not representable by pkg/diff's line model
 			}
 			env.Probe("agree-diff-applied")
 			got, err := ApplyUnified(o, df)
@@ -279,16 +289,53 @@ func c12Agree(env *Env, c *Case) []Violation {
 			_ = pres
 		}
 	}
-	// -v only adds its log lines
+	// -v only adds its log lines, and only between (or before/after) the files' outputs:
+	// stdout with -v must parse as  [log lines]* (segment(f) [log lines about f]*)*
 	env.Probe("agree-verbose")
-	vout := string(rv.Stdout)
-	for _, f := range sorted {
-		for _, suffix := range []string{": patched\n", ": skipped\n"} {
-			vout = strings.Replace(vout, f.Path+suffix, "", 1)
+	vrest := string(rv.Stdout)
+	isLogLine := func(line string) bool {
+		for _, f := range c.Files {
+			if strings.Contains(line, f.Path) {
+				return true
+			}
+		}
+		return false
+	}
+	stripLogs := func(rest string) string {
+		for {
+			nl := strings.IndexByte(rest, '\n')
+			if nl < 0 || !isLogLine(rest[:nl]) {
+				return rest
+			}
+			rest = rest[nl+1:]
 		}
 	}
-	if vout != string(rp.Stdout) {
-		add("verbose", tag, fmt.Sprintf("-v changes the --print-only output beyond its log lines\nwith -v (log lines removed): %q\nwithout: %q", clip(vout, 400), clip(string(rp.Stdout), 400)))
+	vok := true
+	var vwhere string
+	for _, f := range sorted {
+		seg := ""
+		if !failed[f.Path] {
+			seg = string(final[f.Path].Data)
+		}
+		// log lines may precede the segment, but a segment that itself starts with
+		// something that looks like a log line is taken first
+		if !strings.HasPrefix(vrest, seg) || seg == "" {
+			vrest = stripLogs(vrest)
+		}
+		if !strings.HasPrefix(vrest, seg) {
+			vok = false
+			vwhere = f.Path
+			break
+		}
+		vrest = vrest[len(seg):]
+		vrest = stripLogs(vrest)
+	}
+	if vok && strings.TrimSpace(stripLogs(vrest)) != "" {
+		vok = false
+		vwhere = "end of output"
+	}
+	if !vok {
+		add("verbose", tag, fmt.Sprintf("with -v the --print-only output is not the files' outputs with log lines in between (first problem at %s)\nwith -v: %q\nwithout: %q", vwhere, clip(string(rv.Stdout), 400), clip(string(rp.Stdout), 400)))
 	}
 	// descriptions
 	for _, r := range []*RunResult{rw, rp, rd, rv} {
